@@ -5,7 +5,7 @@ from refmodels.net_ref import RefQueue
 from vsim.rig import Rig, repo
 
 PROP = "C12"
-RULE = ("operation histories over {enqueue fresh | duplicate of a stored frame | the caller's "
+RULE = ("operation histories over {enqueue fresh | duplicate of a stored frame | same origin+id but other type | the caller's "
         "last frame object mutated and re-used, dequeue, peek, len, max_queue_size := lower | "
         "higher, fragmentation toggle (move constructor)}: exhaustive to depth 6 (quick) / 8 "
         "(thorough) by depth-first search with cloned states, plus random depth-200 walks on a "
@@ -16,9 +16,9 @@ RULE = ("operation histories over {enqueue fresh | duplicate of a stored frame |
 REQUIRED = {"enqueue_return": 50000, "dequeue_compare": 10000, "drain_compare": 50000,
             "bound_after_accept": 10000, "toggle_preserves": 5000, "node_toggle": 50}
 BUDGET = {"quick": 45, "thorough": 600}
-EXHAUSTIVE = {"quick": "all 9^6 operation histories of depth 6", "thorough": "all 9^8 histories of depth 8"}
+EXHAUSTIVE = {"quick": "all 10^6 operation histories of depth 6", "thorough": "all 10^8 histories of depth 8"}
 
-OPS = ["e_fresh", "e_dup", "e_reuse", "deq", "peek", "len", "max_lo", "max_hi", "toggle"]
+OPS = ["e_fresh", "e_dup", "e_twin", "e_reuse", "deq", "peek", "len", "max_lo", "max_hi", "toggle"]
 
 
 class St:
@@ -63,6 +63,17 @@ def step(ctx, m, st, op, hist):
         st.ctr += 1
         f = _mk(m, src[0], 0o3, src[1], src[2], 7, b"duplicate%d" % st.ctr)
         exp = st.ref.enqueue(src[0], src[1], src[2], 0o3, 7, f.message)
+        got = st.real.enqueue(f)
+        ctx.clause("enqueue_return")
+    elif op == "e_twin":
+        # same origin and frame id as a stored frame but another type: NOT a duplicate
+        if not st.ref.q:
+            return True
+        src = st.ref.q[-1]
+        st.ctr += 1
+        typ = 1 + (src[2] % 120)
+        f = _mk(m, src[0], 0o3, src[1], typ, 9, b"twin%d" % st.ctr)
+        exp = st.ref.enqueue(src[0], src[1], typ, 0o3, 9, f.message)
         got = st.real.enqueue(f)
         ctx.clause("enqueue_return")
     elif op == "deq":
